@@ -5,5 +5,5 @@ From Coq Require Import String.
 From QSCGen Require Import G_pins.
 Open Scope string_scope.
 
-Lemma pin_convert_to_spline_current : pin_convert_to_spline = "43463a52b99eb8fb28a2f0a3848e0eab6345e508a6a6dac077c6266608cccdb4".
+Lemma pin_convert_to_spline_current : pin_convert_to_spline = "e9a2b0b96780d3173f7267a1fcc66b74bda9c7c9c57a9f9cd84a34a0ac7baf19".
 Proof. reflexivity. Qed.
